@@ -58,6 +58,7 @@ def parse(log):
 
 def main():
     rows = []
+    results = []
     for d in sorted(os.listdir(SEEDED)):
         dd = os.path.join(SEEDED, d)
         lf = os.path.join(dd, "verify.log")
@@ -71,6 +72,7 @@ def main():
         with open(mf) as f:
             meta = json.load(f)
         meta["lead_verification"] = lv
+        results.append(lv["check_result"])
         with open(mf, "w") as f:
             json.dump(meta, f, indent=1)
             f.write("\n")
@@ -93,8 +95,7 @@ Regenerate with `python3 lib/seeded_results.py`.
     with open(os.path.join(SEEDED, "RESULTS.md"), "w") as f:
         f.write(head + "\n".join(rows) + "\n")
     from collections import Counter
-    cnt = Counter(r.split("|")[5].strip() for r in rows)
-    print(len(rows), dict(cnt))
+    print(len(rows), dict(Counter(results)))
     return 0
 
 
